@@ -64,6 +64,11 @@ def main():
         cc = 'clang++ -std=gnu++17 -g -O1 -fsanitize=address,undefined -fno-sanitize-recover=all -I Include' if is_asan else 'g++ -std=gnu++17 -O1 -I Include'
         if 'thread' in open(demo).read() and 'pthread' not in cc:
             cc += ' -pthread'
+        if m.get('compile'):
+            # the demonstration needs particular flags (e.g. a SIMD configuration): keep the compiler and -D/-m/-f flags
+            toks = [t for t in m['compile'].split() if t.startswith(('-D', '-m', '-f', '-O', '-pthread'))]
+            comp = 'clang++' if 'clang++' in m['compile'] else 'g++'
+            cc = comp + ' -std=gnu++17 -I Include ' + ' '.join(toks)
         rc, out = sh('%s %s -o /tmp/seedeval_demo_with && /tmp/seedeval_demo_with' % (cc, demo), cwd=WT, timeout=900)
         with_fail = rc != 0
         ran.append('with patch: %s demo.cpp && ./a.out -> exit %d' % (cc, rc))
